@@ -13,13 +13,17 @@ import (
 	"fmt"
 	"io"
 	"net"
+	"os"
+	"path/filepath"
 	"runtime"
 	"strings"
 	"sync"
+	"syscall"
 	"time"
 
 	"github.com/bbockelm/cedar/addresses"
 	"github.com/bbockelm/cedar/ccb"
+	"github.com/bbockelm/cedar/client/sharedport"
 	"github.com/bbockelm/cedar/security"
 	cedarserver "github.com/bbockelm/cedar/server"
 	"github.com/bbockelm/cedar/stream"
@@ -39,8 +43,9 @@ type step struct {
 	Msg  string `json:"msg,omitempty"`
 	Racy bool   `json:"racy,omitempty"` // do not wait for the effect before the next step
 	IDOf int    `json:"id_of,omitempty"`
-	To   int    `json:"to,omitempty"` // conn: whose listener to connect to / whose id to present (index+1; 0 = self)
-	N    int    `json:"n,omitempty"`  // barrier: number of brokers that must have a request; conn: rendezvous size
+	To   int    `json:"to,omitempty"`   // conn: whose listener to connect to / whose id to present (index+1; 0 = self)
+	Lost bool   `json:"lost,omitempty"` // conn: the endpoint it is sent to now belongs to another dial; not an arrival of this attempt
+	N    int    `json:"n,omitempty"`    // barrier: number of brokers that must have a request; conn: rendezvous size
 
 	// observed
 	Label  int    `json:"label,omitempty"`
@@ -66,6 +71,21 @@ type scenario struct {
 	Stagger int            `json:"stagger"` // ms; <0 sequential
 	Prev    bool           `json:"prev"`    // run a complete earlier request first and remember its id
 	Brokers []brokerScript `json:"brokers"`
+	// Twin, if set, is a second, independent ccb.Dial that runs concurrently with
+	// this one (own listener, own broker, own connect id).  Steps with IDOf == -1
+	// present the twin's connect id; op "twin_barrier" waits until both dials have
+	// their request at their broker.
+	Twin *scenario `json:"twin,omitempty"`
+	link *linkGroup
+	// TwinAfter: start the twin dial only once this dial's request has reached its
+	// broker (so this dial's reverse listener exists first).
+	TwinAfter bool `json:"twin_after,omitempty"`
+	// SP: accept the reverse connection through a shared-port endpoint (a Unix
+	// socket fed by fd passing) named SPName ("" = anonymous) instead of a TCP
+	// listen socket; the harness plays the shared_port daemon.
+	SP     bool   `json:"sp,omitempty"`
+	SPName string `json:"sp_name,omitempty"`
+	spDir  string
 
 	// observed
 	PrevID   string   `json:"prev_id,omitempty"`
@@ -146,6 +166,61 @@ func plaintextSec() *security.SecurityConfig {
 		Integrity:      security.SecurityNever,
 		RemoteVersion:  "$CondorVersion: 25.13.0 2026-06-21 BuildID: verif $",
 	}
+}
+
+// linkGroup joins the two runners of a scenario and its twin.
+type linkGroup struct {
+	mu      sync.Mutex
+	brokers map[*scenario]*liveBroker
+	done    map[*scenario]bool
+}
+
+func (l *linkGroup) register(sc *scenario, b *liveBroker) {
+	l.mu.Lock()
+	l.brokers[sc] = b
+	l.mu.Unlock()
+}
+
+func (l *linkGroup) finished(sc *scenario) {
+	l.mu.Lock()
+	if l.done == nil {
+		l.done = map[*scenario]bool{}
+	}
+	l.done[sc] = true
+	l.mu.Unlock()
+}
+
+// waitOtherFinished waits (bounded) until the other dial's ccb.Dial has returned.
+func (l *linkGroup) waitOtherFinished(sc *scenario) {
+	dl := time.Now().Add(4 * time.Second)
+	for time.Now().Before(dl) {
+		l.mu.Lock()
+		for k, d := range l.done {
+			if k != sc && d {
+				l.mu.Unlock()
+				return
+			}
+		}
+		l.mu.Unlock()
+		time.Sleep(time.Millisecond)
+	}
+}
+
+// other waits (bounded) for the other dial's broker to have its request.
+func (l *linkGroup) other(sc *scenario) *liveBroker {
+	dl := time.Now().Add(3 * time.Second)
+	for time.Now().Before(dl) {
+		l.mu.Lock()
+		for k, b := range l.brokers {
+			if k != sc {
+				l.mu.Unlock()
+				return b
+			}
+		}
+		l.mu.Unlock()
+		time.Sleep(time.Millisecond)
+	}
+	return nil
 }
 
 type peerConn struct {
@@ -266,6 +341,14 @@ func (r *runner) runScript(ctx context.Context, b *liveBroker) {
 			for r.contacted() < st.N && time.Now().Before(dl) {
 				time.Sleep(time.Millisecond)
 			}
+		case "twin_wait": // until the other dial is over
+			if r.sc.link != nil {
+				r.sc.link.waitOtherFinished(r.sc)
+			}
+		case "twin_barrier":
+			if r.sc.link != nil {
+				r.sc.link.other(r.sc)
+			}
 		case "cancel":
 			r.cancel()
 			// wait until the requester has torn the broker connection down
@@ -326,6 +409,16 @@ func (r *runner) runScript(ctx context.Context, b *liveBroker) {
 			if st.IDOf > 0 {
 				of = r.brokers[st.IDOf-1]
 			}
+			if st.IDOf == -1 {
+				if r.sc.link == nil {
+					st.Status = stUnused
+					continue
+				}
+				if of = r.sc.link.other(r.sc); of == nil {
+					st.Status = stUnused
+					continue
+				}
+			}
 			// both brokers must have their request by now
 			if !waitDone(to.reqCh, 3*time.Second) || !waitDone(of.reqCh, 3*time.Second) {
 				st.Status = stUnused
@@ -334,7 +427,7 @@ func (r *runner) runScript(ctx context.Context, b *liveBroker) {
 			g := st.G.resolve(of.id, r.sc.PrevID)
 			st.G = &g
 			st.Label = r.newLabel()
-			conn, err := net.DialTimeout("tcp", to.myAddr, 2*time.Second)
+			conn, err := r.dialPeer(to.myAddr)
 			if err != nil {
 				st.Status = stClosed // refused: the listener is gone
 				continue
@@ -379,6 +472,43 @@ func (r *runner) runScript(ctx context.Context, b *liveBroker) {
 	}
 }
 
+// dialPeer opens a scripted peer connection to a requester's advertised return
+// address: plain TCP, or, for a shared-port sinful "host:port?sock=NAME", what the
+// shared_port daemon would do -- hand one end of a fresh stream socket to the
+// endpoint's Unix socket by fd passing.
+func (r *runner) dialPeer(addr string) (net.Conn, error) {
+	i := strings.Index(addr, "?sock=")
+	if i < 0 {
+		return net.DialTimeout("tcp", addr, 2*time.Second)
+	}
+	name := addr[i+len("?sock="):]
+	fds, err := syscall.Socketpair(syscall.AF_UNIX, syscall.SOCK_STREAM, 0)
+	if err != nil {
+		return nil, err
+	}
+	mine := os.NewFile(uintptr(fds[0]), "peer")
+	theirs := os.NewFile(uintptr(fds[1]), "forwarded")
+	defer theirs.Close() // the endpoint holds its own duplicate after the pass
+	conn, err := net.FileConn(mine)
+	_ = mine.Close()
+	if err != nil {
+		return nil, err
+	}
+	uc, err := net.DialUnix("unix", nil, &net.UnixAddr{Name: filepath.Join(r.sc.spDir, name), Net: "unix"})
+	if err != nil {
+		_ = conn.Close()
+		return nil, err
+	}
+	defer uc.Close()
+	ctx, cancel := context.WithTimeout(context.Background(), 2*time.Second)
+	defer cancel()
+	if err := sharedport.SendForwardedConn(ctx, uc, theirs.Fd()); err != nil {
+		_ = conn.Close()
+		return nil, err
+	}
+	return conn, nil
+}
+
 func trimSinful(s string) string { return strings.Trim(s, "<>") }
 
 // run executes the scenario against the real ccb.Dial and fills in the observed fields.
@@ -388,6 +518,28 @@ func (sc *scenario) run() {
 	defer cancelAll()
 	var contacts []addresses.CCBContact
 
+	if sc.SP && sc.spDir == "" {
+		d, err := os.MkdirTemp("", "c20sp")
+		if err != nil {
+			panic(err)
+		}
+		sc.spDir = d
+		defer os.RemoveAll(d)
+	}
+	if sc.Twin != nil && sc.link == nil {
+		sc.link = &linkGroup{brokers: map[*scenario]*liveBroker{}}
+		sc.Twin.link = sc.link
+		sc.Twin.spDir = sc.spDir
+		twinDone := make(chan struct{})
+		go func() {
+			defer close(twinDone)
+			if sc.TwinAfter {
+				sc.link.other(sc.Twin) // = this dial's broker has its request
+			}
+			sc.Twin.run()
+		}()
+		defer func() { <-twinDone }()
+	}
 	if sc.Prev { // an earlier, complete request whose id a rogue will replay
 		pre := &scenario{Mode: "std", Stagger: -1, Brokers: []brokerScript{{Steps: []step{{Op: "conn", G: ptr(legit())}}}}}
 		pre.run()
@@ -430,6 +582,9 @@ func (sc *scenario) run() {
 			bs.Order = r.arrivals
 			r.mu.Unlock()
 			close(b.reqCh)
+			if sc.link != nil {
+				sc.link.register(sc, b)
+			}
 			r.runScript(ctx, b)
 			return cedarserver.KeepOpen()
 		})
@@ -449,6 +604,10 @@ func (sc *scenario) run() {
 		opts.Stagger = -1
 	} else {
 		opts.Stagger = time.Duration(sc.Stagger) * time.Millisecond
+	}
+	if sc.SP {
+		opts.ListenAddr = ""
+		opts.SharedPortEndpoint = &ccb.SharedPortEndpointConfig{SharedPortAddr: "127.0.0.1:1", SocketDir: sc.spDir, SocketName: sc.SPName}
 	}
 	if sc.Mode == "proxy" || sc.Mode == "nested" {
 		opts.ProxyReturnAddr = "<127.0.0.1:0?ccbid=127.0.0.1:0%231>"
@@ -481,6 +640,9 @@ func (sc *scenario) run() {
 		case res = <-resCh:
 		case <-time.After(2 * time.Second):
 		}
+	}
+	if sc.link != nil {
+		sc.link.finished(sc)
 	}
 	sc.Returned = 0
 	if res.conn != nil {
